@@ -40,6 +40,11 @@ Record ATV := mkATV { atv_version : Z; atv_tx : VbkTx; atv_merkle : VbkMerklePat
 Record VTB := mkVTB { vtb_version : Z; vtb_tx : VbkPopTx; vtb_merkle : VbkMerklePath; vtb_block : VbkBlock }.
 Record PopData := mkPopData { pop_version : Z; pop_context : list VbkBlock; pop_vtbs : list VTB; pop_atvs : list ATV }.
 
+Record AltBlock := mkAltBlock { ab_hash : list byte; ab_prev : list byte; ab_height : Z; ab_time : Z }.
+Record KeystoneContainer := mkKeystoneContainer { kc_first : list byte; kc_second : list byte }.
+Record ContextInfoContainer := mkContextInfoContainer { ci_height : Z; ci_keystones : KeystoneContainer }.
+Record AuthenticatedContextInfoContainer := mkAuthCtx { ac_ctx : ContextInfoContainer; ac_state_root : list byte }.
+
 (** uint256 etc. written reversed: stream.write(x.reverse()) / x = slice.reverse() *)
 Definition c_rev_bytes (n : Z) : codec (list byte) := c_iso (@rev byte) (@rev byte) (c_bytes n).
 
@@ -49,6 +54,25 @@ Definition c_count_fixed32 (mn mx : Z) : codec Z :=
   c_refine (c_single_fixed_be I32) (fun n => check_range n mn mx).
 
 Definition to_unit {A} (_ : A) : unit := tt.
+
+(** altblock.cpp: toRaw = toVbkEncoding *)
+Definition c_altblock : codec AltBlock :=
+  c_iso (fun b => (ab_hash b, (ab_prev b, (ab_height b, ab_time b))))
+        (fun '(h, (p, (ht, t))) => mkAltBlock h p ht t)
+    (c_pair (c_sbl ALT_HASH_SIZE ALT_HASH_SIZE) (c_pair (c_sbl 0 ALT_HASH_SIZE) (c_pair (c_be I32 4) (c_be U32 4)))).
+
+(** keystone_container.cpp *)
+Definition c_keystones : codec KeystoneContainer :=
+  c_iso (fun k => (kc_first k, kc_second k)) (fun p => mkKeystoneContainer (fst p) (snd p))
+    (c_pair (c_sbl MIN_ALT_HASH_SIZE MAX_ALT_HASH_SIZE) (c_sbl MIN_ALT_HASH_SIZE MAX_ALT_HASH_SIZE)).
+
+(** context_info_container.cpp *)
+Definition c_ctxinfo : codec ContextInfoContainer :=
+  c_iso (fun c => (ci_height c, ci_keystones c)) (fun p => mkContextInfoContainer (fst p) (snd p))
+    (c_pair (c_be I32 4) c_keystones).
+Definition c_authctx : codec AuthenticatedContextInfoContainer :=
+  c_iso (fun c => (ac_ctx c, ac_state_root c)) (fun p => mkAuthCtx (fst p) (snd p))
+    (c_pair c_ctxinfo (c_bytes SHA256_HASH_SIZE)).
 
 Section Entities.
   Variable addr_ok : Z -> list byte -> bool.
